@@ -90,6 +90,10 @@ def service_cases(tier, inst):
     small = (inst[0], inst[1], 0.0123457 * inst[2], inst[3])
     for ms in P.stream_multisets(small, 3, 2, cps=(1, 2), dts=(0, 1)):
         yield {"streams": ms, "zones": ["A"] * len(ms) if len(ms) == 1 else ["A", "B"]}
+    # bench-scale duties (total duty around 1e-5): every absolute threshold of the library is larger than the targets
+    tiny = (inst[0], inst[1], 1.3e-7 * inst[2], inst[3])
+    for ms in P.stream_multisets(tiny, 3, 2, cps=(1, 2), dts=(0, 1), iso=False):
+        yield {"streams": ms, "zones": ["A"] * len(ms) if len(ms) == 1 else ["A", "B"]}
     # tolerance-edge family: two streams whose bounds differ by tiny amounts
     T = A.lattice(inst, 4)
     cpu = inst[2]
@@ -167,6 +171,6 @@ SUBCHECKS = {
              "non-trivial = some zone has overlapping hot and cold streams; outcomes = distinct per-zone target lists",
         cases=service_cases, run=service_run,
         bound=lambda t: ("multisets of <=2 streams (K=4) x all label schemes of <=2 zones" if t == "quick" else "multisets of <=3 streams (K=4) x all label schemes of <=2 zones")
-        + " + same-name identical streams + zero-crossing lattice + small non-round duties + latent-span and tolerance-edge families",
+        + " + same-name identical streams + zero-crossing lattice + small non-round duties + bench-scale duties (~1e-5 in total) + latent-span and tolerance-edge families",
     ),
 }
